@@ -602,6 +602,9 @@ class PurityWorld:
                 G = np.asarray(self.resolve(op["args"]).get("X"), dtype=float)
                 Dd = np.asarray(getattr(obj, "descriptors"), dtype=float)
                 ok = G.ndim == 2 and Dd.ndim == 2 and G.shape[1] == Dd.shape[1] and all(np.any(np.all(Dd == g, axis=1)) for g in G)
+                w_ = getattr(obj, "weights", None)
+                if w_ is not None and np.size(w_) != Dd.shape[0]:
+                    ok = False  # one weight per descriptor (a reduced re-parameterisation)
             except Exception:  # noqa: BLE001
                 ok = True
             if not ok:
